@@ -5,8 +5,9 @@ creation / resizing).
 Observable: after EVERY eat_chunk / finish call,  exn;name:length:len(data),...;sum(context_info.values()).
 
 A case is {'op':'mem', 'fmt', 'sizes':[...], 'cont':0|1, 'fin':k, 'k':label} plus the stream, given as
-  'n','bg','p'            background ('z' zeros | 'r<seed>' random | 't<seed>' text | 'f' 0xff | 'a' one long ASCII line
-                          | 'T<seed>' periodic text) of length n with patches [[offset, hex], ...] applied in order (the C01 representation), or
+  'n','bg','p'            background ('z' zeros | 'f' 0xff | 'a' one long ASCII line | 'T<seed>' / 'R<seed>' text / random with
+                          a 64 KiB period — these are shipped to the model as block + patches; 'r<seed>' random | 't<seed>'
+                          text of the C01 generators) of length n with patches [[offset, hex], ...] applied in order (the C01 representation), or
   'hostile': [seed, tier, index]   the index-th image of tools/imgbuild.hostile_images(Random(seed), tier).
 sizes = chunk sizes (rest = one more chunk, 0 = empty chunk); cont=1: keep feeding the object after an exception;
 fin = index of the chunk before which finish() is called (>= number of chunks: at the end).
@@ -52,13 +53,9 @@ def data_of(c):
         return _last[1]
     key = (c['n'], c['bg'], repr(c['p']))
     if _last[0] != key:
-        if c['bg'][0] in 'faT':
-            n = c['n']
-            if c['bg'][0] == 'T':       # periodic pseudo-random text (64 KiB period): fast to build for multi-MiB streams
-                blk = bytes(random.Random(int(c['bg'][1:])).choices(TEXT, k=65536))
-                b = bytearray((blk * (n // 65536 + 1))[:n])
-            else:
-                b = bytearray((b'\xff' if c['bg'] == 'f' else b'A') * n)
+        if c['bg'][0] in PERIODIC:
+            n = c['n']; blk = block_of(c['bg'])
+            b = bytearray((blk * (n // len(blk) + 1))[:n])
             for off, hx in c['p']:
                 v = bytes.fromhex(hx)
                 if off < n:
@@ -68,6 +65,17 @@ def data_of(c):
             d = c01.data_of(c)
         _last[0], _last[1] = key, d
     return _last[1]
+
+PERIODIC = 'zfaTR'
+def block_of(bg):
+    """the block a periodic background repeats (fast to build, and shipped to the model instead of the stream)"""
+    if bg == 'z': return b'\0' * 4096
+    if bg == 'f': return b'\xff' * 4096
+    if bg == 'a': return b'A' * 4096
+    r = random.Random(int(bg[1:]))
+    if bg[0] == 'T': return bytes(r.choices(TEXT, k=65536))
+    if bg[0] == 'R': return r.randbytes(65536 - 7)
+    raise KeyError(bg)
 TEXT = b'abcdefghijklmnopqrstuvwxyzABCDEFGHIJKLMNOPQRSTUVWXYZ0123456789 =#"/._-\n\n\t'
 
 # ------------------------------------------------------------------ my own hostile family (compact: n, bg, patches)
@@ -91,7 +99,7 @@ def own_hostile(rng, tier):
     """-> (fmt, n, bg, patches, label).  Streams long enough that a missing clamp / truncation shows in the sum."""
     big = tier != 'quick'
     L = 6 * MI if big else 2 * MI + 4096
-    bgs = lambda: rng.choice(['z', 'r%d' % rng.randrange(10**6), 'T%d' % rng.randrange(10**6), 'f', 'a'])
+    bgs = lambda: rng.choice(['z', 'R%d' % rng.randrange(10**6), 'T%d' % rng.randrange(10**6), 'f', 'a'])
     # VMDK: descriptor sector counts up to 2^64-1, with and without the footer flag
     nums = [2047, 2048, 2049, 4096, 2**32, 2**55, 2**63, U64 - 1, U64]
     for dn in (nums if big else [2048, 4096, 2**55, U64]):
@@ -147,7 +155,7 @@ def gen_cases(rng, tier):
     # 1. boundary / hostile family first
     for fmt, n, bg, p, lab in own_hostile(rng, tier):
         ch = big_chunkings(rng, n, tier)
-        if tier == 'quick' and lab in ('plain', 'valid+tail'): ch = [ch[0], rng.choice(ch[1:])]
+        if tier == 'quick': ch = [ch[0], rng.choice(ch[1:])]
         for sizes in ch:
             cont, fin = modes(rng, len(sizes) + 1)
             yield {'op': 'mem', 'fmt': fmt, 'n': n, 'bg': bg, 'p': p, 'sizes': sizes, 'cont': cont, 'fin': fin, 'k': lab}
@@ -155,13 +163,15 @@ def gen_cases(rng, tier):
     #    thorough tier, to one more inspector
     seed = rng.randrange(10**9)
     n_img = sum(1 for _ in imgbuild.hostile_images(random.Random(seed), tier))
-    step = 1 if tier != 'quick' else 3
+    step = 1 if tier != 'quick' else 4
     for idx in range(rng.randrange(step), n_img, step):
         img_fmt, d = hostile_image(seed, tier, idx)
         fmts = [img_fmt if img_fmt in FORMATS and img_fmt != 'raw' else rng.choice(FORMATS)]
         if tier != 'quick': fmts.append(rng.choice([f for f in FORMATS if f != fmts[0]]))
-        for fmt in fmts:
-            for sizes in big_chunkings(rng, len(d), tier)[:2 if tier == 'quick' else 4]:
+        for j, fmt in enumerate(fmts):
+            ch = big_chunkings(rng, len(d), tier)
+            ch = ch[:2] if tier == 'quick' else [ch[0] if (idx + j) % 2 else rng.choice(ch[1:])]     # the streams are shipped whole: keep the volume down
+            for sizes in ch:
                 cont, fin = modes(rng, len(sizes) + 1)
                 yield {'op': 'mem', 'fmt': fmt, 'hostile': [seed, tier, idx], 'sizes': sizes, 'cont': cont, 'fin': fin, 'k': 'imgbuild'}
     # 3. the C01 generators (structured mostly-valid images, truncations, mutations, polyglots; small streams, fine chunkings)
@@ -202,6 +212,10 @@ def impl(c):
     return observe(c['fmt'], data_of(c), c['sizes'], c['cont'], c['fin'])
 
 def encode(c):
+    if 'hostile' not in c and c['bg'][0] in PERIODIC:      # compact: the model builds the stream from the block and the patches
+        vs = [bytes.fromhex(hx) for _o, hx in c['p']]
+        return ['memc', c['fmt'], int(c['n']), block_of(c['bg']), [o for o, _h in c['p']], [len(v) for v in vs], b''.join(vs),
+                list(c['sizes']), int(c['cont']), int(c['fin'])]
     return ['mem', c['fmt'], data_of(c), list(c['sizes']), int(c['cont']), int(c['fin'])]
 
 def oracle(c, io):
